@@ -1,10 +1,17 @@
 /* C13 harness: sc_stats_compute of the real libsc on the simulated MPI.
-   stdin per run:  header  <P> <seed> <adversary> <nvars> <rounds>
+   stdin per run:  header  <P> <seed> <adversary> <nvars> <rounds> [<kind of round 0> <kind of round 1> ...]
+       kind 0 (default): the round ends with sc_stats_compute, kind 1: with sc_stats_compute1
      then for each round, each rank, each variable one line:  <mode> <n> <v1> ... <vn>
-       mode 0: sc_stats_init + n x sc_stats_accumulate;  mode 1: sc_stats_set1 (v1);  mode 2: leave the variable as it is (clean);  mode 3: sc_stats_reset + n x sc_stats_accumulate
-     values are decimal doubles.
+       mode 0: sc_stats_init + n x sc_stats_accumulate;  mode 1: sc_stats_set1 (v1);  mode 2: leave the variable as it is;
+       mode 3: sc_stats_reset (st, 0) + n x sc_stats_accumulate (sc_stats_init in the first round);
+       mode 4: sc_stats_init_ext (copy = 1, group = var, prio = round) + n x accumulate (an owned name is released by sc_stats_reset (st, 1) first);
+       mode 5: sc_stats_reset (st, 1) + n x accumulate (sc_stats_init in the first round);
+       mode 6: sc_stats_set1_ext (v1, copy = 1, group = var, prio = round) (an owned name is released first);
+       mode 7: n x sc_stats_accumulate on the variable as it is (the generator uses it only while the variable is dirty)
+     values are decimal doubles.  At the end every rank calls sc_stats_reset (st, 1) so that owned names are freed.
    stdout: OUT <round> <rank> <var> dirty count sum sumsq min max min_at max_at average variance standev variance_mean standev_mean
-           (doubles as hex bit patterns) */
+               owned hasname group prio
+           (doubles as hex bit patterns; owned = variable_owned != NULL, hasname = variable != NULL) */
 #include <sc.h>
 #include <sc_statistics.h>
 #include <simmpi.h>
@@ -12,7 +19,7 @@
 
 #define MAXV 8
 typedef struct { int mode, n; double *v; } item_t;
-typedef struct { int nvars, rounds, P; item_t *items; /* [round][rank][var] */ char *outbuf; size_t outlen, outcap; } arg_t;
+typedef struct { int nvars, rounds, P; int kinds[64]; item_t *items; /* [round][rank][var] */ char *outbuf; size_t outlen, outcap; } arg_t;
 
 static uint64_t bits (double d) { uint64_t u; memcpy (&u, &d, 8); return u; }
 static void emit (arg_t * a, const char *s)
@@ -33,22 +40,31 @@ static void rank_main (int rank, int size, void *varg)
       item_t *it = &a->items[((size_t) rd * a->P + rank) * a->nvars + i];
       if (it->mode == 0) { sc_stats_init (&st[i], "v"); for (int k = 0; k < it->n; ++k) sc_stats_accumulate (&st[i], it->v[k]); }
       else if (it->mode == 1) sc_stats_set1 (&st[i], it->v[0], "v");
-      else if (it->mode == 3) {
+      else if (it->mode == 3 || it->mode == 5) {
         /* refill through reset: "Variables are zeroed. They can be set again by set1 or accumulate" - like mode 0
            for a variable that was initialised in an earlier round (the first round initialises instead) */
-        if (rd == 0) sc_stats_init (&st[i], "v"); else sc_stats_reset (&st[i], 0);
+        if (rd == 0) sc_stats_init (&st[i], "v"); else sc_stats_reset (&st[i], it->mode == 5);
         for (int k = 0; k < it->n; ++k) sc_stats_accumulate (&st[i], it->v[k]);
       }
+      else if (it->mode == 4 || it->mode == 6) {
+        if (st[i].variable_owned != NULL) sc_stats_reset (&st[i], 1);
+        if (it->mode == 4) { sc_stats_init_ext (&st[i], "w", 1, i, rd); for (int k = 0; k < it->n; ++k) sc_stats_accumulate (&st[i], it->v[k]); }
+        else sc_stats_set1_ext (&st[i], it->v[0], "w", 1, i, rd);
+      }
+      else if (it->mode == 7) { for (int k = 0; k < it->n; ++k) sc_stats_accumulate (&st[i], it->v[k]); }
     }
-    sc_stats_compute (sc_MPI_COMM_WORLD, a->nvars, st);
+    if (a->kinds[rd]) sc_stats_compute1 (sc_MPI_COMM_WORLD, a->nvars, st);
+    else sc_stats_compute (sc_MPI_COMM_WORLD, a->nvars, st);
     for (int i = 0; i < a->nvars; ++i) {
-      snprintf (line, sizeof line, "OUT %d %d %d %d %ld %" PRIx64 " %" PRIx64 " %" PRIx64 " %" PRIx64 " %d %d %" PRIx64 " %" PRIx64 " %" PRIx64 " %" PRIx64 " %" PRIx64 "\n",
+      snprintf (line, sizeof line, "OUT %d %d %d %d %ld %" PRIx64 " %" PRIx64 " %" PRIx64 " %" PRIx64 " %d %d %" PRIx64 " %" PRIx64 " %" PRIx64 " %" PRIx64 " %" PRIx64 " %d %d %d %d\n",
                 rd, rank, i, st[i].dirty, st[i].count, bits (st[i].sum_values), bits (st[i].sum_squares), bits (st[i].min), bits (st[i].max),
                 st[i].min_at_rank, st[i].max_at_rank, bits (st[i].average), bits (st[i].variance), bits (st[i].standev),
-                bits (st[i].variance_mean), bits (st[i].standev_mean));
+                bits (st[i].variance_mean), bits (st[i].standev_mean),
+                st[i].variable_owned != NULL, st[i].variable != NULL, st[i].group, st[i].prio);
       emit (a, line);
     }
   }
+  for (int i = 0; i < a->nvars; ++i) if (st[i].variable_owned != NULL) sc_stats_reset (&st[i], 1);
 }
 
 int main (void)
@@ -62,8 +78,11 @@ int main (void)
   while (fgets (line, sizeof line, stdin)) {
     int P, adv; unsigned long seed; arg_t a;
     memset (&a, 0, sizeof a);
-    if (sscanf (line, "%d %lu %d %d %d", &P, &seed, &adv, &a.nvars, &a.rounds) < 5) continue;
+    int pos = 0;
+    if (sscanf (line, "%d %lu %d %d %d%n", &P, &seed, &adv, &a.nvars, &a.rounds, &pos) < 5) continue;
     a.P = P;
+    if (a.rounds > 64) a.rounds = 64;
+    for (int rd = 0; rd < a.rounds; ++rd) { int kd = 0, adv2 = 0; if (sscanf (line + pos, "%d%n", &kd, &adv2) == 1) { a.kinds[rd] = kd; pos += adv2; } }
     size_t nit = (size_t) a.rounds * P * a.nvars;
     a.items = (item_t *) calloc (nit + 1, sizeof (item_t));
     for (size_t k = 0; k < nit; ++k) {
